@@ -423,9 +423,11 @@ def get_results(tier):
 
 # ------------------------------------------------------------------ replay against the real crate
 REPLAY = os.path.join(BUILD, "replay-target", "release", "replay")
-SCENARIOS = {"take": ["take1", "take2", "take0"], "map": ["map"], "filter": ["filter"], "scan": ["scan"], "skip": ["skip1"], "from_iter": ["from_iter"],
-             "concat": ["concat2", "concat3"], "concat0": ["concat0"], "flatten": ["flatten"], "merge": ["merge2", "merge3", "merge2X"],
+SCENARIOS = {"take": ["take1", "take2", "take0", "take2L"], "map": ["map", "mapL"], "filter": ["filter"], "scan": ["scan"], "skip": ["skip1"], "from_iter": ["from_iter"],
+             "concat": ["concat2", "concat3"], "concat0": ["concat0"], "flatten": ["flatten"], "merge": ["merge2", "merge3", "merge2X"], "merge_L": ["merge2L"],
              "combine1": ["combine2"], "combine2": ["combine2", "combine2X"], "combine3": ["combine2", "combine2X"], "share": ["share2", "share3"]}
+# scenarios in which the puppet sources are pullable (one answer per Pull) and the sink pulls only with none outstanding
+PULL_SCENARIOS = {"take": ["take2P"], "map": ["mapP"], "filter": ["filterP"], "scan": ["scanP"], "skip": ["skip1P"], "from_iter": ["from_iterP"], "concat": ["concat2P", "concat3P"], "flatten": ["flattenP"]}
 
 
 def build_replay():
@@ -478,6 +480,10 @@ def replay_search(template, pid, secs=90):
             for x in f.get("excludes", [f["replay"]["expect"]]):
                 excl += ["--exclude", x]
     scs = list(SCENARIOS.get(template, []))
+    if template == "merge_L" and pid not in ("C01", "C17"):
+        scs = []   # with late greeters everything but the greeting itself reproduces finding F5
+    if pid in ("C14", "C06", "C15", "C09", "C11", "C07"):
+        scs += PULL_SCENARIOS.get(template, [])
     if template == "merge" and pid == "C01":
         scs.append("merge2L")   # late greeters are in C01's quantifier; for the other properties they only reproduce finding F5
     for sc in scs:
@@ -702,6 +708,31 @@ def main():
             continue
         seen.add(k)
         print(f"KNOWN-FINDING: property={a.property} {f.get('id','')} {f.get('what','')}")
+    if not viol:
+        # Cross-attribution by a concrete counterexample: an obligation tagged with ANOTHER property failed in
+        # a unit that also carries this property (Verus stops trusting the function at its first failures, and
+        # one invariant part serves several properties).  The failed obligation is the verifier's verdict; which
+        # properties the change breaks is then settled on the real code: exhaustive tape search for THIS
+        # property in that operator's scenarios.  Only a replayed failing history is reported.
+        findings = load_findings().get("findings", [])
+        suspects = []
+        for u in relevant:
+            if u["status"] != "failed":
+                continue
+            unlisted = [e for e in u["errors"] if e.get("kind") == "failed" and not any(finding_matches(f, u, dict(e, property=pp)) for f in findings for pp in (e.get("properties") or [e.get("property")]))]
+            if unlisted and u["template"] not in suspects:
+                suspects.append(u["template"])
+        for t in suspects:
+            cex = replay_search(t, a.property, secs=90)
+            if cex:
+                os.makedirs(os.path.join(EVID, "replay"), exist_ok=True)
+                path = os.path.join(EVID, "replay", f"{a.property}-{t}.cross-attributed.json")
+                other = sorted({(e.get("property"), e.get("clause")) for u in relevant if u["template"] == t for e in u["errors"] if e.get("kind") == "failed"})[:6]
+                json.dump({"property": a.property, "obligation": f"{t}: obligations failed under other tags {other}; this property's violation is shown by the replayed history",
+                           "failing_input": {"scenario": cex["scenario"], "tape": cex["tape"], "violations": cex["violations"], "history": cex["history"],
+                                             "replay_cmd": f"{REPLAY} run {cex['scenario']} '{json.dumps(cex['tape'])}'"}}, open(path, "w"), indent=1)
+                print(f"VIOLATION property={a.property} replay={path}")
+                sys.exit(1)
     if viol:
         os.makedirs(os.path.join(EVID, "replay"), exist_ok=True)
         done = set()
